@@ -1,4 +1,5 @@
 import CashewsVerif.Driver.RedisProto
+import CashewsVerif.Model.RedisLock
 /-
 Driver for C19 (interactive: one answer line per request line, flushed).
 
@@ -8,6 +9,13 @@ Driver for C19 (interactive: one answer line per request line, flushed).
   srv <tok>…                    a wire-level command array from the stub redis package → reply (the Lean model IS the server)
   srvadv <ms>                   time passes on the stub's server
   op <cashews command>          model backend over its own server copy, and the reference:  model=… spec=… wire=… calls=…
+  envcall <tok>…                a client call made by SOMEBODY ELSE (the holder of a lock) on the model world - the `env` of the lock
+                                theorems: the server executes it (unless the connection is down at that call), the call counter moves on
+  lockwait <hexkey> <tok> <ms> <wait 0|1> <fuel>
+                                `_BackendInterface.lock()` of a caller on the model world, nobody else acting, at most <fuel> small steps:
+                                out=acquired|unprotected|lockedError|raise|raiseOther|waiting wire=… calls=…
+  txlockwait <hexkey> <tok> <ms> <rounds>
+                                `LockTransactionBackend._lock_updates`:  out=acquired|lockedError|raise|raiseOther wire=… calls=…
   dump                          visible keyspace of stub server / model server / reference
   shas                          the SHA1s the script models are pinned to
 -/
@@ -79,6 +87,40 @@ def step (st : St) (line : String) : St × String :=
       let b := fun (x : Bool) => if x then "T" else "F"
       ({ st with world := w', ref := ref' },
         s!"model={showOut o} spec={spec} wire={"|".intercalate (w'.log.map showReq)} calls={w'.calls} anydown={b anyDown} alldown={b allDown} fv={showOut (Ref.failureValue op)}")
+  | "envcall" :: toks =>
+    match parseWire? toks with
+    | none => (st, "bad-op")
+    | some c =>
+      let w := st.world
+      let w' := if st.cfg.down w.calls then { w with calls := w.calls + 1 }
+                else { w with calls := w.calls + 1, srv := (w.srv.exec c).1 }
+      ({ st with world := w' }, s!"ok calls={w'.calls}")
+  | ["lockwait", k, tok, ms, wait, fuel] =>
+    match key? k, parseBytes? tok, ms.toNat?, fuel.toNat? with
+    | some key, some t, some m, some f =>
+      let w0 := { st.world with log := [] }
+      let (w', o) := lockRun st.cfg key t m (wait == "1") envId f .atSetLock w0
+      let out := match o with
+        | none => "waiting"
+        | some .acquired => "acquired"
+        | some .unprotected => "unprotected"
+        | some .lockedError => "lockedError"
+        | some .raise => "raise"
+        | some .raiseOther => "raiseOther"
+      ({ st with world := w' }, s!"out={out} wire={"|".intercalate (w'.log.map showReq)} calls={w'.calls}")
+    | _, _, _, _ => (st, "bad-op")
+  | ["txlockwait", k, tok, ms, rounds] =>
+    match key? k, parseBytes? tok, ms.toNat?, rounds.toNat? with
+    | some key, some t, some m, some r =>
+      let w0 := { st.world with log := [] }
+      let (w', o) := txLockRun st.cfg key t m envId r w0
+      let out := match o with
+        | .acquired => "acquired"
+        | .lockedError => "lockedError"
+        | .raise => "raise"
+        | .raiseOther => "raiseOther"
+      ({ st with world := w' }, s!"out={out} wire={"|".intercalate (w'.log.map showReq)} calls={w'.calls}")
+    | _, _, _, _ => (st, "bad-op")
   | ["dump"] => (st, s!"stub={dumpKS st.stub.ks} model={dumpKS st.world.srv.ks} spec={dumpKS st.ref}")
   | ["shas"] => (st, s!"unlock={Script.unlock.sha} incr_expire={Script.incrExpire.sha} incr_slice={Script.incrSlice.sha}")
   | _ => (st, "bad-op")
